@@ -2,6 +2,8 @@ package checks
 
 import (
 	"github.com/trajectoryjp/spatial_id_go/v4/integrate"
+	"math"
+	"math/big"
 	"pgregory.net/rapid"
 
 	"verif/ref"
@@ -78,6 +80,31 @@ func genC04(t *rapid.T) *CaseC04 {
 	maxDH, maxDV := int64(2), int64(3)
 	if c.Spatial {
 		maxDV = 2
+	}
+	if rapid.IntRange(0, 11).Draw(t, "deep") == 0 {
+		// a target far above the inputs: one to three voxels of ONE fine zoom pair (no spread among the inputs, so the
+		// call is cheap), 2*dh+dv up to 105 levels below the target voxel - the group is hopelessly incomplete
+		if rapid.Bool().Draw(t, "deepLowTarget") {
+			c.H = rapid.Int64Range(0, 6).Draw(t, "dH")
+			c.V = rapid.Int64Range(0, 8).Draw(t, "dV")
+			if c.Spatial {
+				c.V = c.H
+			}
+			seed = genBoxAt(t, "dseed", c.H, c.V)
+		}
+		dh := rapid.Int64Range(0, 35-c.H).Draw(t, "ddh")
+		dv := rapid.Int64Range(0, 35-c.V).Draw(t, "ddv")
+		if rapid.Bool().Draw(t, "deepMax") {
+			dh, dv = 35-c.H-rapid.Int64Range(0, min64(3, 35-c.H)).Draw(t, "mh"), 35-c.V-rapid.Int64Range(0, min64(3, 35-c.V)).Draw(t, "mv")
+		}
+		if c.Spatial {
+			dv = dh
+		}
+		for i := rapid.IntRange(1, 3).Draw(t, "nDeep"); i > 0; i-- {
+			c.Boxes = append(c.Boxes, ref.Box{H: seed.H + dh, X: seed.X<<uint(dh) + genIndex(t, "dx", 0, (int64(1)<<uint(dh))-1), Y: seed.Y<<uint(dh) + genIndex(t, "dy", 0, (int64(1)<<uint(dh))-1),
+				V: seed.V + dv, F: seed.F<<uint(dv) + genIndex(t, "df", 0, (int64(1)<<uint(dv))-1)})
+		}
+		return c
 	}
 	if !c.Spatial && c.H <= 30 && c.V <= 30 && rapid.IntRange(0, 14).Draw(t, "wide") == 0 {
 		// wide zoom spread (up to 5 levels per axis) with a few large, partially overlapping pieces of one target
@@ -183,7 +210,11 @@ func c04Groups(c *CaseC04) map[ref.Box]*c04Group {
 	out := map[ref.Box]*c04Group{}
 	for a, ms := range groups {
 		H, V := ref.MaxZooms(ms)
-		g := &c04Group{cells: int64(len(ref.Region(ms, H, V))), full: ref.ZoomCount(a, H, V).Int64()}
+		full := int64(math.MaxInt64)
+		if n := ref.ZoomCount(a, H, V); n.IsInt64() {
+			full = n.Int64()
+		}
+		g := &c04Group{cells: int64(len(ref.Region(ms, H, V))), full: full}
 		for _, m := range ms {
 			if m.F < 0 {
 				g.neg = true
@@ -304,7 +335,8 @@ func checkC04(c *CaseC04, fl *Fails) {
 		fl.Add(c04Kind(c, "set"), "merge(%v -> %d/%d): missing %v, unexpected %v", in, c.H, c.V, miss, extra)
 	}
 	// (2) region equality, independent of the expected set
-	if !ref.SameRegion(outBoxes, c.Boxes) {
+	// (skipped when a wrong result would make the region enumeration explode: the set oracle has spoken then)
+	if c04RegionCells(outBoxes, c.Boxes) <= 1<<22 && !ref.SameRegion(outBoxes, c.Boxes) {
 		fl.Add(c04Kind(c, "region"), "merge(%v -> %d/%d) = %v covers a different region than the input", in, c.H, c.V, trunc(out, 12))
 	}
 	// (4) idempotence
@@ -339,7 +371,40 @@ func checkC04(c *CaseC04, fl *Fails) {
 	}
 }
 
+// c04RegionCells bounds the number of unit cells SameRegion would enumerate for the two lists.
+func c04RegionCells(a, b []ref.Box) int64 {
+	H1, V1 := ref.MaxZooms(a)
+	H2, V2 := ref.MaxZooms(b)
+	H, V := max64(H1, H2), max64(V1, V2)
+	total := new(big.Int)
+	for _, l := range [][]ref.Box{a, b} {
+		for _, x := range l {
+			total.Add(total, ref.ZoomCount(x, H, V))
+		}
+	}
+	if !total.IsInt64() {
+		return math.MaxInt64
+	}
+	return total.Int64()
+}
+
 func sweepC04(tier string, emit func(*CaseC04)) {
+	// targets far above a single fine input: every 2*dh+dv from 20 to 105 (word-size boundaries of a cell count)
+	for dh := int64(0); dh <= 35; dh++ {
+		for dv := int64(0); dv <= 35; dv++ {
+			if s := 2*dh + dv; s < 20 || (tier == "quick" && s%3 != 0 && (s < 61 || s > 66) && (s < 30 || s > 34)) {
+				continue
+			}
+			b := ref.Box{H: dh, X: (int64(1) << uint(dh)) / 3, Y: (int64(1) << uint(dh)) - 1, V: dv, F: -((int64(1) << uint(dv)) / 5) - 1}
+			if dv == 0 {
+				b.F = -1
+			}
+			emit(&CaseC04{Boxes: []ref.Box{b}, H: 0, V: 0})
+			if dh == dv {
+				emit(&CaseC04{Boxes: []ref.Box{b}, H: 0, V: 0, Spatial: true})
+			}
+		}
+	}
 	for i, n := range roundSizes {
 		if (tier == "quick" && i%3 != 1) || n > 2048 {
 			continue
